@@ -6,6 +6,7 @@ Fuel monotonicity of the CREATE TABLE path of the statement parser (`parse_type`
 -/
 namespace Sqlgrep
 namespace Parse
+namespace Concat
 
 set_option hygiene false in
 /-- the induction hypotheses `mono_auto` looks for, from `mono_all` at fuel `n` -/
@@ -140,5 +141,6 @@ theorem parseOp_create_mono_le (T : PrecTables) {f f' : Nat} (h : f ≤ f') (s :
   · rw [hm]; exact PLe.fuel _
   · rw [hm]; exact PLe.refl _
 
+end Concat
 end Parse
 end Sqlgrep
